@@ -99,6 +99,9 @@ pub fn profile_for(prop: &str) -> Profile {
             p_panic: 5,
             w_retain: 0,
             w_take: 1,
+            // a get() that is past admission moves on (next idle object, creation) whatever happens to the
+            // pool meanwhile: close() while one of its callbacks is pending is part of the histories
+            w_close: 2,
             ..Profile::base("C04", "protocol")
         },
         "C06" => Profile {
@@ -477,6 +480,10 @@ async fn drive_inner(d: &mut Director, p: &Profile, rng: &mut Rng) {
                     3 => cur + 1,
                     _ => rng.usize_below(cur + 3),
                 };
+                // a closed pool ignores resize() whatever the argument: "unbounded" and the values around the
+                // semaphore's permit limit included (on an open pool those are not legal sizes)
+                let closed = d.world().closed;
+                let n = if closed && rng.chance(1, 2) { *rng.pick(&[usize::MAX, usize::MAX >> 3, (usize::MAX >> 3) + 1, usize::MAX >> 1, 1usize << 32, 65_536]) } else { n };
                 d.resize(n);
             }
             9 => d.close(),
